@@ -55,7 +55,7 @@ theorem stepAny_traceOk {cfg : Cfg} {rec : Pred V → R V} (hrec : TraceOkRec cf
     · exact traceOk_ret _ _
   · exact traceOk_ret _ _
   · exact traceOk_ret _ _
-  · exact traceOk_bindR (hrec _) fun _ => traceOk_ret _ _
+  · exact traceOk_ret _ _
   · exact traceOk_ret _ _
 
 theorem stepNot_traceOk {cfg : Cfg} {rec : Pred V → R V} (hrec : TraceOkRec cfg rec) (q : Pred V) :
